@@ -296,7 +296,7 @@ def check(ctx):
     for pc, t, n in rs[:1]:
         c = pc[-1]
         txt = ir.show(c[0], maxdepth=8)
-        okc = c[1] and c[0][0] == "cmp" and c[0][1] == "!=" and "len(" in txt and "nat_sum_data_dict" in txt.replace("phi", "") \
+        okc = c[0][0] == "cmp" and ((c[1] and c[0][1] == "!=") or (not c[1] and c[0][1] == "==")) and "len(" in txt and "nat_sum_data_dict" in txt.replace("phi", "") \
             and txt.count("len(") >= 2 and "divided_error_B_1" in txt
         ctx.ob("C08.R4.cond", f"{f.qualname}|length check", okc, f.where(n),
                "raises when len(weights) != number of contests" if okc else f"length check is {txt[:160]}")
